@@ -90,6 +90,10 @@ TEMPLATES = {
                                                                     '--geo-translate=%s,0,0,5' % v['k2']] + BASE),
     'rotate-keys': ([R('k1', -3, 3), R('k2', -3, 3)], lambda v: ['-w', W, '--excitation-pulse=1', '--geo-rotate=%s,0,90,0' % v['k1'],
                                                                  '--geo-rotate=%s,30,0,0' % v['k2']] + BASE),
+    'translate-diag': ([R('x', -1e3, 1e3)], lambda v: ['-w', W, '--excitation-pulse=1', '--geo-translate=1,%s,%s,%s' % (v['x'], v['x'], v['x'])] + BASE),
+    'scale-twice': ([R('s', -10, 10)], lambda v: ['-w', W, '--excitation-pulse=1', '--geo-scale=%s' % v['s'], '--geo-scale=%s' % v['s']] + BASE),
+    'rotate-translate-arc': ([R('x', -1e3, 1e3), R('a', -400, 400)], lambda v: ['-a', '3,1.0,10,130,0.002', '--excitation-pulse=1',
+                              '--geo-rotate=1,%s,0,%s' % (v['a'], v['a']), '--geo-translate=2,%s,%s,%s' % (v['x'], v['x'], v['x'])] + BASE),
     'taper':       ([I('k', -1, 4), R('mn', -1, 2), R('mx', -1, 2)],
                     lambda v: ['-w', '4,0,0,0,7,0,0,0.5', '--excitation-pulse=1', '--taper-wire=1,%s,%s,%s' % (v['k'], v['mn'], v['mx'])] + BASE),
     'arc':         ([I('n', -1, 5), R('R', -1, 2), R('a2', -400, 800), R('r', -1, 1)],
